@@ -221,6 +221,9 @@ impl<S: ClientStream> AgentClient<S> {
         let mut keys = Vec::new();
         let resp = self.stream.request(&buf)?;
 
+        if resp.is_empty() {
+            return Err(Error::AgentProtocolError);
+        }
         if resp[0] == msg::IDENTITIES_ANSWER {
             let mut r = resp.reader(1);
             let n = r.read_u32()?;
